@@ -130,6 +130,7 @@ pub fn install(json: &str) -> Result<(), String> {
             c.val.push(f32::from_bits(s.vals[i]));
             c.iv.push(Iv::TOP);
             c.born.push(s.born[i]);
+            c.quant.push(i16::MIN);
             let vs = if node.op == Op::Var { [0u64; 4] } else { dag::vs_or(&c.vsof(node.a), &c.vsof(node.b)) };
             c.vset.push(vs);
             if node.op != Op::Var {
